@@ -185,7 +185,7 @@ impl<E: FieldElement> DeepCompositionPoly<E> {
 
         // set the coefficients of the DEEP composition polynomial
         self.coefficients = trace_poly;
-        assert_eq!(self.poly_size() - 2, self.degree());
+        assert!(self.degree() <= self.poly_size() - 2);
     }
 
     // CONSTRAINT POLYNOMIAL COMPOSITION
@@ -223,7 +223,7 @@ impl<E: FieldElement> DeepCompositionPoly<E> {
         for (i, poly) in column_polys.into_iter().enumerate() {
             mul_acc::<E, E>(&mut self.coefficients, &poly, self.cc.constraints[i]);
         }
-        assert_eq!(self.poly_size() - 2, self.degree());
+        assert!(self.degree() <= self.poly_size() - 2);
     }
 
     // LOW-DEGREE EXTENSION
